@@ -36,6 +36,8 @@ SCHEMAS = {
     "names_and_deep": (7, "wrapped_obj", lambda m, n: {"propertyNames": {"maxLength": 0}, "properties": {"a": {"properties": {"b": {"maximum": m}},
                                                                                                        "additionalProperties": {"minimum": n}}}}),
     "deep_then_names": (6, "wrapped_obj", lambda m, n: {"additionalProperties": {"additionalProperties": {"maximum": m}}, "propertyNames": {"pattern": "^b"}}),
+    "dotted_names": (7, "wrapped_dotted", lambda m, n: {"properties": {"a": {"additionalProperties": {"maximum": m}, "items": {"maximum": m}},
+                                                                       "a.b": {"maximum": n}, "a[0]": {"minimum": n}}}),
     "nested_arr": (7, "arr_arr_int", lambda m, n: {"items": {"items": {"maximum": m}, "maxItems": 1}, "maxItems": 1}),
     "nested_obj_arr": (6, "obj_arr_int", lambda m, n: {"additionalProperties": {"items": {"maximum": m}, "minItems": 2}, "required": ["a"]}),
 }
@@ -177,6 +179,9 @@ def tree(name, L=1, N=2, code=(0, 0, 0), exclude=()):
         return True
 
     def body(x, m, n):
+        if kind == "wrapped_dotted":
+            # "a.b" / "a[0]" render to the same json_path as the nested locations ["a","b"] / ["a",0]
+            x = {"a": x, "a.b": n + 1, "a[0]": n - 1}
         if kind == "wrapped_obj":
             # one symbolic object under concrete outer keys (two symbolic levels do not finish): {"a": x, "b": {...}}
             x = {"a": x, "b": {"a": m}} if len(x) < 2 else {"a": x}
@@ -188,12 +193,12 @@ def tree(name, L=1, N=2, code=(0, 0, 0), exclude=()):
         ok = tree_ok(x, errs, exclude)
         return ok, ("errors%d" % min(len(errs), 2))
 
-    T = KIND_TYPES["obj_int"] if kind == "wrapped_obj" else KIND_TYPES[kind]
+    T = KIND_TYPES["obj_int"] if kind in ("wrapped_obj", "wrapped_dotted") else KIND_TYPES[kind]
     return Spec([("x", T), ("m", int), ("n", int)], pre, body, tags=TAGS.get(name, ["errors0", "errors2"]))
 
 
 KEYS = ("", "a", "b", "c", "ab", "ca")
-TAGS = {"names_and_deep": ["errors2"], "deep_then_names": ["errors2"], "d3_required": ["errors2"], "d3_required_order2": ["errors2"], "required_many": ["errors2"], "arr_tuple": ["errors2"]}
+TAGS = {"dotted_names": ["errors2"], "names_and_deep": ["errors2"], "deep_then_names": ["errors2"], "d3_required": ["errors2"], "d3_required_order2": ["errors2"], "required_many": ["errors2"], "arr_tuple": ["errors2"]}
 
 
 def conditions(tier, seed, active):
